@@ -1,6 +1,7 @@
 package regexp2
 
 import (
+	"math"
 	"sync"
 	"sync/atomic"
 	"time"
@@ -46,7 +47,7 @@ func (t fasttime) reached() bool {
 func makeDeadline(d time.Duration) fasttime {
 	// Increase the deadline since the clock we are reading may be
 	// just about to tick forwards.
-	end := fast.current.read() + durationToTicks(d+clockPeriod)
+	end := fast.current.read() + deadlineTicks(d)
 
 	// Start or extend clock if necessary.
 	if end > fast.clockEnd.read() {
@@ -58,7 +59,7 @@ func makeDeadline(d time.Duration) fasttime {
 			// update fast.current
 			fast.current.write(durationToTicks(time.Since(fast.start)))
 			// recalculate our end value
-			end = fast.current.read() + durationToTicks(d+clockPeriod)
+			end = fast.current.read() + deadlineTicks(d)
 		}
 		fast.mu.Unlock()
 		extendClock(end)
@@ -106,6 +107,15 @@ func stopClock() {
 		isRunning = fast.running
 		fast.mu.Unlock()
 	}
+}
+
+// deadlineTicks is durationToTicks(d+clockPeriod), except that the sum saturates
+// instead of wrapping around for a d within one clock period of math.MaxInt64.
+func deadlineTicks(d time.Duration) fasttime {
+	if d > math.MaxInt64-clockPeriod {
+		return durationToTicks(math.MaxInt64)
+	}
+	return durationToTicks(d + clockPeriod)
 }
 
 func durationToTicks(d time.Duration) fasttime {
